@@ -973,13 +973,14 @@ impl Run {
             epath.display()
         );
         let _ = std::io::stdout().flush();
+        for (n, _, d) in &failed_guards {
+            println!("MACHINERY: vacuity guard `{n}` failed: {d}");
+        }
+        let _ = std::io::stdout().flush();
         if !lines.is_empty() {
             std::process::exit(EXIT_VIOLATION);
         }
         if !failed_guards.is_empty() {
-            for (n, _, d) in failed_guards {
-                println!("MACHINERY: vacuity guard `{n}` failed: {d}");
-            }
             std::process::exit(EXIT_MACHINERY);
         }
         std::process::exit(EXIT_OK);
